@@ -41,6 +41,7 @@ func (channel *Channel) channelClose(method *amqp.ChannelClose) (err *amqp.Error
 
 func (channel *Channel) channelCloseOk(method *amqp.ChannelCloseOk) (err *amqp.Error) {
 	channel.status = channelClosed
+	channel.close()
 	return nil
 }
 
